@@ -468,3 +468,12 @@ VARIANTS["C11"] += [
       "    nonconst_keys = set(non_constant_hyperparameter_keys(config_space))",
       "    nonconst_keys = non_constant_hyperparameter_keys(config_space)"),
 ]
+
+VARIANTS["C10"] += [
+    E("running maximum with exchanged arguments", SB,
+      """            time_final_result = max(time_final_result, _time_result)""",
+      """            time_final_result = max(_time_result, time_final_result)"""),
+    B("completion time taken from the last listed result", SB,
+      """            time_final_result = max(time_final_result, _time_result)""",
+      """            time_final_result = _time_result"""),
+]
